@@ -300,7 +300,9 @@ int _vnadata_set_format(vnadata_t *vdp, const char *format,
     for (int i = 0;;) {
 	if (parse_format(&vfdp_new[i], cur) == -1) {
 	    _vnadata_error(vdip, category,
-		    "invalid format specifier: \"%s\"", cur);
+		    "%sinvalid format specifier: \"%s\"",
+		    category == VNAERR_USAGE ? "vnadata_set_format: " : "",
+		    cur);
 	    goto out;
 	}
 	if (++i >= nfields) {
